@@ -195,8 +195,18 @@ def c09_extra(rep, rnd, first_id):
 
     singles = [A.field("a", A.t_char()), A.field("a", A.t_char(), 8), A.field("a", A.t_char(), 3), A.field("a", A.t_arr(A.t_char(), A.L_fixed(2))),
                A.field("a", A.t_int("uint8")), A.field("a", A.t_wchar())]
-    for f in singles:
+    for f in singles + [None, None]:
         for e in "<>":
+            if f is None:
+                # more than one member, the first one character-like: T(bytes of the first member's length) is an input like any other
+                k = r2.choice([1, 2, 4])
+                first = A.field("raw", A.t_char() if k == 1 else A.t_arr(A.t_char(), A.L_fixed(k)))
+                t = A.t_struct("MANY", [first, A.field("val", A.t_int("uint32")), A.field("half", A.t_arr(A.t_int("uint16"), A.L_fixed(2)))],
+                               union=r2.random() < 0.5)
+                scn = {"type": t, "mode": {"endian": e, "align": False, "ptr": 8}, "consts": {}, "defs": A.render(t, {})}
+                for data in (b"ABCD"[:k], b"ABCDEFGHIJKL", b"AB"):
+                    out.append(codec.enrich(codec.parse_record(first_id + n + len(out), scn, data, 0, r2.random() < 0.5), forms=True))
+                continue
             t = A.t_struct("ONE", [f])
             scn = {"type": t, "mode": {"endian": e, "align": False, "ptr": 8}, "consts": {}, "defs": A.render(t, {})}
             for data in (b"A", b"AB", b"\x00", b"\xff\x01"):
@@ -369,6 +379,23 @@ def c07_extra(rep, rnd, first_id):
         start = codec.start_for(rnd, scn)
         out.append(codec.parse_record(first_id + len(out), scn, codec.gen_input(rnd, start, maxlen=40), start, rnd.random() < 0.5, both=True))
     out += anon_context_family(rnd, first_id + len(out), 400 if rep.tier == "thorough" else 60)
+    # two structures declare, in place, an element structure with the SAME tag and different layouts, and an array of it with the
+    # same length form: each array holds elements of its own element type (nothing may be shared by name)
+    u8 = A.t_int("uint8")
+    for _ in range(200 if rep.tier == "thorough" else 30):
+        mode = codec.gen_mode(rnd)
+        lay = [[A.field("a", u8)], [A.field("a", A.t_int("uint16")), A.field("b", A.t_int("uint16"))], [A.field("p", A.t_int("uint32"))],
+               [A.field("c", A.t_arr(A.t_char(), A.L_fixed(3)))]]
+        la, lb = rnd.sample(lay, 2)
+        ln = rnd.choice([A.L_fixed(2), A.L_fixed(3), A.L_NULL if False else A.L_fixed(1)])
+        first = A.t_struct("same_a", [A.field("e", A.t_arr(A.t_struct("entry", la), ln)), A.field("t", u8)])
+        first["fields"][0]["inline"] = "tag"
+        second = A.t_struct("same_b", [A.field("h", u8), A.field("e", A.t_arr(A.t_struct("entry", lb), ln)), A.field("t", u8)])
+        second["fields"][1]["inline"] = "tag"
+        holder = A.t_struct("same_h", [A.field("x", first), A.field("y", second)])
+        scn = {"type": holder, "mode": mode, "consts": {}, "defs": A.render(holder, {})}
+        start = codec.start_for(rnd, scn)
+        out.append(codec.parse_record(first_id + len(out), scn, codec.gen_input(rnd, start, maxlen=60), start, rnd.random() < 0.5, both=True))
     # x[EOF] takes everything that is left: whatever follows it finds the end of the input - also when the last element is partial
     # (the array itself may then raise or not, but no later member may be made of the left-over bytes)
     u8 = A.t_int("uint8")
